@@ -25,18 +25,18 @@ def c18_desc(rng, n):
             fields.append({"name": f"f{j}", "id": j, "type": ("u", w)}); total += w
         desc["structs"].append({"name": f"S{i}", "fields": fields})
         r = rng.random()
-        bus = rng.choice(["can1", "can2", "bus0"]) if r < 0.6 else (rng.choice(["a", "ab", "abc"]) if r < 0.85 else None)
+        bus = rng.choice(["can1", "can2", "bus0", "CAN1", "Bus0"]) if r < 0.6 else (rng.choice(["a", "ab", "abc"]) if r < 0.85 else None)
         if used and (rng.random() < 0.35 or i == n - 1 and len(used) == n - 1):
             # an id shared with an earlier binding: mostly on another 4-character bus (legal: dispatch is by (id, bus)), now and then on the same
             fid = rng.choice(sorted(used))
             taken = used[fid]
-            free = [b for b in ["can1", "can2", "bus0", "zzzz"] if b not in taken]
+            free = [b for b in ["can1", "can2", "bus0", "zzzz", "CAN1", "CAN2"] if b not in taken]   # incl. names that differ only in case
             if free and rng.random() < 0.8:
                 bus = rng.choice(free)
         else:
             fid = rng.choice([0, 1, 2047]) if rng.random() < 0.25 else rng.randrange(2048)   # the ends of the 11-bit id range now and then
         if i < 2:
-            fid, bus = (0, 2047)[i], rng.choice(["can1", "can2"])      # both ends of the id range, every schema, on a full-length bus
+            fid, bus = (0, 2047)[i], rng.choice(["can1", "can2", "CAN1"])      # both ends of the id range, every schema, on a full-length bus
         used.setdefault(fid, set()).add(bus)
         fs = [("id", fid)] + ([("bus", bus)] if bus is not None else [])
         desc["impls"].append({"protocol": "can", "type": f"S{i}", "name": f"S{i}", "fields": fs, "signals": []})
@@ -162,7 +162,7 @@ def run(chk):
                                           "static_encode": se, "dynamic_encode": de})
                     # a frame that matches no binding
                     sid = chk.rng.randrange(2048) if chk.rng.random() < 0.5 else chk.rng.choice(cans).fields["id"]
-                    fbus = chk.rng.choice(["can1", "can2", "bus0", "zzzz", "ab", "yyyy"]).encode().ljust(4, b"\0").hex()
+                    fbus = chk.rng.choice(["can1", "can2", "bus0", "zzzz", "ab", "yyyy", "CAN1", "CAN2", "BUS0", "Can1"]).encode().ljust(4, b"\0").hex()
                     matches = [j for j in cans if j.fields["id"] == sid and (j.fields.get("bus") or "").encode().ljust(4, b"\0").hex() == fbus]
                     data = "00" * 8
                     sd = drv.ask(f"SD {fbus} {sid} 8 {data}")
